@@ -36,7 +36,8 @@ def sh(cmd, cwd=None, env=None, timeout=None, check=True, capture=True):
     p = subprocess.run(cmd, cwd=cwd, env=env or GOENV, timeout=timeout, shell=isinstance(cmd, str),
                        stdout=subprocess.PIPE if capture else None, stderr=subprocess.STDOUT if capture else None, text=True)
     if check and p.returncode != 0:
-        raise Inconclusive("command failed (%d): %s\n%s" % (p.returncode, cmd, (p.stdout or "")[-4000:]))
+        o = p.stdout or ""
+        raise Inconclusive("command failed (%d): %s\n%s" % (p.returncode, cmd, o if len(o) < 5000 else o[:2000] + "\n...\n" + o[-2500:]))
     return p
 
 
